@@ -37,7 +37,7 @@ use tokio::sync::{
 };
 
 use std::{
-    collections::{HashMap, HashSet},
+    collections::{HashMap, HashSet, VecDeque},
     pin::Pin,
     sync::Arc,
     task::{Context, Poll},
@@ -176,6 +176,10 @@ pub struct NotificationHandle {
     /// RX channel for receiving notifications from connection handlers.
     notif_rx: Receiver<(PeerId, BytesMut)>,
 
+    /// Notifications which were read from `notif_rx` while discarding the notifications of a
+    /// closed notification stream and which have not been delivered to user yet.
+    pending_notifications: VecDeque<(PeerId, BytesMut)>,
+
     /// TX channel for sending commands to the notification protocol.
     command_tx: Sender<NotificationCommand>,
 
@@ -207,6 +211,7 @@ impl NotificationHandle {
         Self {
             event_rx,
             notif_rx,
+            pending_notifications: VecDeque::new(),
             command_tx,
             handshake,
             peers: HashMap::new(),
@@ -497,6 +502,20 @@ impl Stream for NotificationHandle {
                         self.peers.remove(&peer);
                         self.clogged.remove(&peer);
 
+                        // the connection handler has forwarded all notifications it received to
+                        // `notif_rx` before it reported that the stream was closed. Since the
+                        // stream is reported closed now, these notifications can no longer be
+                        // delivered and they must be discarded right away. If they were left in
+                        // the channel and the stream was opened again before they were discarded,
+                        // they (or only the tail of them) would be delivered as if they had been
+                        // received from the new stream.
+                        self.pending_notifications.retain(|(sender, _)| sender != &peer);
+                        while let Ok((sender, notification)) = self.notif_rx.try_recv() {
+                            if sender != peer {
+                                self.pending_notifications.push_back((sender, notification));
+                            }
+                        }
+
                         return Poll::Ready(Some(NotificationEvent::NotificationStreamClosed {
                             peer,
                         }));
@@ -524,15 +543,19 @@ impl Stream for NotificationHandle {
                 },
             }
 
-            match futures::ready!(self.notif_rx.poll_recv(cx)) {
-                None => return Poll::Ready(None),
-                Some((peer, notification)) =>
-                    if self.peers.contains_key(&peer) {
-                        return Poll::Ready(Some(NotificationEvent::NotificationReceived {
-                            peer,
-                            notification,
-                        }));
-                    },
+            let (peer, notification) = match self.pending_notifications.pop_front() {
+                Some(notification) => notification,
+                None => match futures::ready!(self.notif_rx.poll_recv(cx)) {
+                    None => return Poll::Ready(None),
+                    Some(notification) => notification,
+                },
+            };
+
+            if self.peers.contains_key(&peer) {
+                return Poll::Ready(Some(NotificationEvent::NotificationReceived {
+                    peer,
+                    notification,
+                }));
             }
         }
     }
